@@ -14,6 +14,7 @@ fn fmt_stub2(_a: core::fmt::Arguments<'_>) -> String {
 // @harness c13_write_validation
 // @props C13 C10
 // @tier quick
+// @cost 15
 // @timeout 900
 // @needs W0
 // @desc the complete argument validation of write_at (everything before its first await, lifted verbatim): for ALL offsets and lengths, Err <=> (length or offset not a multiple of the block size, or offset+len overflows or exceeds the virtual size, or the device is read-only, incl. every backing device); no arithmetic overflow or panic for any argument; when validation passes, `single` <=> first and last byte lie in the same cluster
@@ -126,6 +127,7 @@ fn $name() {
 // @harness c01_write_split
 // @props C01 C13 C16
 // @tier quick
+// @cost 100
 // @timeout 1200
 // @needs WF
 // @desc the whole body of __write_at with its awaited callees shimmed: a rejected request reaches no mapping update and no write; an accepted request is cut into pieces that, in order, exactly partition [offset, offset+len), none crossing a cluster boundary, piece k carrying the L2 entry of the k-th guest cluster of the request and the k-th consecutive sub-range of the caller's buffer; mappings are populated once, for exactly the request range
